@@ -91,6 +91,10 @@ func genC03(t *rapid.T) c03Case {
 	for i := 0; i < n; i++ {
 		q.Clauses = append(q.Clauses, g.GenClauseMixed(fmt.Sprintf("c%d", i), bq.ClauseOpts{}))
 	}
+	aliased := false
+	if cs, ch := g.AliasBounds(q.Clauses, 35, false); ch {
+		q.Clauses, aliased = cs, true
+	}
 	var excl []string
 	if cs, renamed := avoidObjIDReuse(q.Clauses); renamed {
 		q.Clauses = cs
@@ -101,7 +105,7 @@ func genC03(t *rapid.T) c03Case {
 		excl = append(excl, "KF-C03-BINDINGLESS-CLAUSE")
 	}
 	q.Proj = g.GenProjection(bq.AllBindings(q.Clauses))
-	if gen.Maybe(t, 20, "hasglobal") {
+	if gen.Maybe(t, 20, "hasglobal") || (aliased && gen.Maybe(t, 40, "hasglobal-alias")) {
 		q.Global = g.GenGlobal()
 	}
 	return c03Case{Data: d, Q: q, Excluded: excl}
@@ -141,6 +145,9 @@ func c03Labels(ctx *pbt.Ctx, q bq.Query) {
 		}
 		if c.P.Bound != nil || c.O.Bound != nil {
 			ctx.Label("bound-form")
+		}
+		if bq.HasAliasBound([]bq.Clause{c}) {
+			ctx.Label("bound-by-binding")
 		}
 		if c.P.AnchorID != "" || c.O.AnchorID != "" {
 			ctx.Label("anchor-binding")
